@@ -426,3 +426,9 @@ def run(ctx):
         "uniform replica count per tier (as stores.NewStoresFromString builds it); hot tier non-empty; context never cancelled by the caller",
         "one bulk at a time per process (breakers are process-global); concurrency of several bulks through shared breakers is not explored",
     ]
+    # the proxy as a whole (ProxySystem.tla): a real bulk client and a real search ingestor over real in-process
+    # stores behind fault-injecting client wrappers; every recorded history must be a behaviour of the model
+    from checks import _proxysys
+    _proxysys.run_all(ctx, "bulkwrite")
+    ctx.assumptions += ["whole-proxy histories: hot tier of 2 shards x 2 replicas, breaker never opens, fetch faults at stream open only, match-all queries; "
+                        "an acknowledged bulk may be missed by a search that begins before its indexing finished (StoreApi.Bulk answers before indexing: not promised by the property)"]
